@@ -3,6 +3,7 @@ import NunVerif.Model.Oplog
 import NunVerif.Model.Repl
 import NunVerif.Model.Cluster
 import NunVerif.Model.Election
+import NunVerif.Model.S3
 /-
   Line-protocol driver: one operation per input line, canonical output lines per operation.
   The Rust harness (`nvh`) produces the same lines from the real implementation.
@@ -166,6 +167,11 @@ structure World where
   supQueue : List Bytes := []
   links : List (Bytes × Bool) := []          -- connections opened by this node, in creation order (peer, as primary)
   linkOut : List (Bytes × Bytes) := []       -- lines queued on them (peer, line), oldest first
+  /-- s3 storage strategy (C18): the object store, and which PUTs fail (0-based count over the run) -/
+  s3mode : Bool := false
+  objs : Objs := []
+  puts : Nat := 0
+  failPuts : List Nat := []
   /-- coroutine mode (C07): commands that reach start_election park in its wait loops -/
   co : Bool := false
   cos : List (Nat × ECo × Option Bytes × String) := []   -- id ↦ (where parked, replication message due after the election, reply)
@@ -302,7 +308,12 @@ def step (w : World) (line : String) : World × List String :=
     -- every node has its own range of operation ids
     let n0 := freshNodeAt role w.node.clock
     let n := { n0 with addr := name, pid := pid }
-    ({ node := n, oplog := {}, pump := opts.contains b!"pump", sup := opts.contains b!"sup", co := opts.contains b!"co" }, ["# reset"] ++ dumpNode n)
+    let fp : List Nat := match optOf a1 b!"failputs" with
+      | some l => (Bytes.splitAll 43 l).filterMap Bytes.parseNat
+      | none => []
+    let isS3 : Bool := opts.contains b!"s3"
+    let w' : World := { node := n, oplog := {}, pump := opts.contains b!"pump", sup := opts.contains b!"sup", co := opts.contains b!"co" }
+    ({ w' with s3mode := isS3, failPuts := fp }, ["# reset"] ++ dumpNode n)
   | "SESS" =>
     match Bytes.parseNat a1 with
     | some sid =>
@@ -365,6 +376,19 @@ def step (w : World) (line : String) : World × List String :=
       ({ w with node := n }, s!"H {esc reply}" :: evLines evs ++ dumpNode n)
     | none => (w, ["E bad-op"])
   | "SNAP" =>
+    if w.s3mode then
+      let orders := parseOrders a1
+      let q := (dedupConsecutive w.node.toSnapshot).reverse
+      let w := q.foldl (fun (w : World) (name, reclaim) =>
+        match w.node.db? name with
+        | some db =>
+          let base := w.puts
+          match s3Snapshot db w.objs reclaim ((AL.get? orders name).getD []) w.node.clock (fun k => !(w.failPuts.contains (base + k))) with
+          | (db', objs', clock') => { w with node := { w.node.setDb db' with clock := clock' }, objs := objs', puts := base + 2 }
+        | none => w) { w with node := { w.node with toSnapshot := [] } }
+      let fl := (sortBy (·.1) w.objs).map fun (k, v) => s!"F {escw k} {String.ofList (v.flatMap fun x => [hexDigit (x / 16), hexDigit (x % 16)])}"
+      (w, fl ++ dumpNode w.node)
+    else
     let sx : List (XOp × Node) := if w.pump && !w.node.toSnapshot.isEmpty then (w.mstate.trace .snapshotKeys).map (·, w.node) else []
     let w := if w.xtrace then { w with xlog := w.xlog ++ sx } else w
     let sxl := if w.xtrace then sx.map (xopStr ·.1) else []
@@ -381,6 +405,20 @@ def step (w : World) (line : String) : World × List String :=
       | _ => []
     ({ w with node := n }, chk ++ sxl ++ (if w.pump then dumpMeta n w.mstate else []) ++ dumpFs n.fs ++ dumpNode n)
   | "RESTART" =>
+    if w.s3mode then
+      let fresh := { freshNodeAt w.node.role w.node.clock with addr := w.node.addr, pid := w.node.pid }
+      let names := Bytes.sort (s3DbNames w.objs)
+      let res := names.foldl (fun (acc : Option Node) name =>
+        match acc with
+        | none => none
+        | some m =>
+          match s3LoadDb w.objs name m.clock with
+          | some (db, clock) => some ({ m with clock }.addDatabase db).1
+          | none => none) (some fresh)
+      match res with
+      | some n => ({ w with node := n, notices := [] }, "# restarted" :: dumpNode n)
+      | none => ({ w with node := fresh, notices := [] }, ["R PANIC restart"])
+    else
     let rx : List (XOp × Node) := if w.pump then (w.mstate.trace .restart).map (·, w.node) else []
     let w := if w.xtrace then { w with xlog := w.xlog ++ rx } else w
     let rxl := if w.xtrace then rx.map (xopStr ·.1) else []
